@@ -242,8 +242,8 @@ structure FixOut where
   weight : Rat
 deriving Repr, Inhabited
 
-/-- `do_fix` (do_cluster = False) -/
-def doFix (tgt anti : List SRow) (ref : List RRow) (cfg : FixCfg) (P : FixParams) :
+/-- `do_fix` (do_cluster = False) once the two sample tables are known to share no bin -/
+def doFixCore (tgt anti : List SRow) (ref : List RRow) (cfg : FixCfg) (P : FixParams) :
     Except FixErr (List FixOut) := do
   let (cnT, rfT, _) ← loadAdjust tgt ref true cfg.gc cfg.edge false cfg.par P.permT P.wingT P.edgeKeysT
   let (cnA, rfA, _) ← loadAdjust anti ref false cfg.gc false cfg.rmask cfg.par P.permA P.wingA
@@ -254,6 +254,13 @@ def doFix (tgt anti : List SRow) (ref : List RRow) (cfg : FixCfg) (P : FixParams
   let ws := applyWeights ((sub.zip refs).map fun p => (p.1, p.2, sq p.1)) P.varT P.varA
   let final := centerS true cfg.par sub
   pure ((final.zip ws).map fun p => { row := p.1, weight := p.2 })
+
+/-- `do_fix` (repaired code, finding BA): a bin that occurs in both the target and the antitarget table is refused
+    like any other duplicated coordinate (each table is also checked on its own, in `matchRef`) -/
+def doFix (tgt anti : List SRow) (ref : List RRow) (cfg : FixCfg) (P : FixParams) :
+    Except FixErr (List FixOut) :=
+  if (tgt.map sKey).any (fun k => (anti.map sKey).contains k) then .error .dupSample
+  else doFixCore tgt anti ref cfg P
 
 /-- largest deviation of the supplied edge-bias doubles from the exact formula (must be ~1e-16) -/
 def doFixSlack (tgt : List SRow) (ref : List RRow) (cfg : FixCfg) (P : FixParams) : Rat :=
